@@ -11,6 +11,10 @@ package main
 //          property itself: rejected ⇒ no exec/query/prepare event, table unchanged, errors.Is(ErrMissingWhereClause)
 //   admit  (e2e): chains that DO supply a condition are never rejected on this ground
 //   reuse  (c08_reuse.go): call sequences on one statement — tie with the Lean statement machine + the guard after any history
+//   witness (e2e): the three inputs of Lean's C09_empty_where_counterexample / C09_empty_where_repaired, literally — the per-run
+//          probe of F26 (Clauses(clause.Where{}) as the only "condition"). The property is demanded as stated on every tree;
+//          the unrepaired outcome is a KNOWN-FINDING only while known_findings.d/C09.json lists the entry as "finding".
+//          The Lean side follows the regenerated fact Gen.guardRejectsEmptyWhere (driver op c09.facts; c09Facts()).
 
 import (
 	"encoding/json"
@@ -321,7 +325,61 @@ func c09Run(db *gorm.DB, rec *Recorder, c c09Case, calls []c09Call, fin c09Fin) 
 	return res.Error, events, before != after
 }
 
+// c09Witness: the three inputs of the Lean theorem C09_empty_where_counterexample / C09_empty_where_repaired, literally
+// (known_findings.d/C09.json F26 gives the first one as its witness)
+type c09Witness struct {
+	Chain string `json:"chain"`
+}
+
+var c09Witnesses = []c09Witness{
+	{"db.Model(&WPlain{}).Clauses(clause.Where{}).Update(\"b\", 5)"},
+	{"db.Clauses(clause.Where{}).Delete(&WPlain{})"},
+	{"db.Unscoped().Clauses(clause.Where{}).Delete(&WSoft{})"},
+}
+
+// c09ProbeWitness: the per-run probe of F26's witnesses on the real code. What is demanded is the property itself —
+// ErrMissingWhereClause, nothing sent, table unchanged — on every tree; while the entry is LISTED the known outcome of the
+// unrepaired guard (statement sent, refused by the database, no row changed) is reported as the known finding.
+func c09ProbeWitness(r *Result, w c09Witness) {
+	soft := strings.Contains(w.Chain, "WSoft")
+	rows := genRows(rand.New(rand.NewSource(7)), 6, soft)
+	db, rec, sqlDB := openW(rows, soft, nil)
+	defer sqlDB.Close()
+	before := tableDumpOf(db, tableOf(soft))
+	rec.Reset()
+	var res *gorm.DB
+	switch w.Chain {
+	case c09Witnesses[0].Chain:
+		res = db.Model(&WPlain{}).Clauses(clause.Where{}).Update("b", 5)
+	case c09Witnesses[1].Chain:
+		res = db.Clauses(clause.Where{}).Delete(&WPlain{})
+	case c09Witnesses[2].Chain:
+		res = db.Unscoped().Clauses(clause.Where{}).Delete(&WSoft{})
+	default:
+		return
+	}
+	nExec := 0
+	for _, e := range rec.Snapshot() {
+		if isExecEvent(e) {
+			nExec++
+		}
+	}
+	errText := ""
+	if res.Error != nil {
+		errText = res.Error.Error()
+	}
+	changed := tableDumpOf(db, tableOf(soft)) != before
+	r.Case("witness", w.Chain, true)
+	c09JudgeEmptyWhere(r, "witness", w, errors.Is(res.Error, gorm.ErrMissingWhereClause), errText, nExec, changed)
+}
+
 func init() {
+	replayers["C09/witness"] = func(r *Result, input json.RawMessage) {
+		var w c09Witness
+		if json.Unmarshal(input, &w) == nil {
+			c09ProbeWitness(r, w)
+		}
+	}
 	register("C09", func(r *Result, rng *rand.Rand, tier string) {
 		rows := genRows(rand.New(rand.NewSource(7)), 6, false)
 		fins := c09Finishers()
@@ -448,7 +506,7 @@ func init() {
 			// ---- the property
 			if allow == "off" && key == 0 && emptyWhere {
 				// the chain's only "condition" is an empty clause.Where{}: see c09JudgeEmptyWhere (listed finding F26)
-				c09JudgeEmptyWhere(r, c, rejected, fmt.Sprint(err), nExec, changed)
+				c09JudgeEmptyWhere(r, "guard", c, rejected, fmt.Sprint(err), nExec, changed)
 			} else if allow == "off" && key == 0 {
 				// blocking side: must be rejected, nothing sent, nothing changed
 				if !rejected || nExec != 0 || changed {
@@ -600,7 +658,7 @@ func init() {
 		rejected := errors.Is(err, gorm.ErrMissingWhereClause)
 		for _, cl := range calls {
 			if cl.EmptyWhere && c.Allow == "off" && c.Key == 0 {
-				c09JudgeEmptyWhere(r, c, rejected, fmt.Sprint(err), nExec, changed)
+				c09JudgeEmptyWhere(r, "guard", c, rejected, fmt.Sprint(err), nExec, changed)
 				return
 			}
 		}
